@@ -1,6 +1,7 @@
 -- Root of the `RpylibModel` library: every model and proof module is imported here so that
 -- `lake build` (MANIFEST.setup_cmd) checks all of them.
 import RpylibModel.Basic.Proto
+import RpylibModel.Proofs.C01
 import RpylibModel.Proofs.C02
 import RpylibModel.Proofs.C05
 import RpylibModel.Proofs.C06
